@@ -422,6 +422,13 @@ func (p *c08Prop) Gen(r *Rng, tier string, n int) []string {
 	out := make([]string, n)
 	for i := range out {
 		g := r.Fork()
+		if i%4 == 3 {
+			// sequential sharing scenario (objects whose part list repeats one deduplicated part id, several copies,
+			// deletes in random order, read-back after each) followed by collector runs: same engine as C09, the
+			// model predicts the whole line
+			out[i] = metaGenSharingX(g, false) + " gc gc sweep"
+			continue
+		}
 		workers := 2 + g.Intn(5)
 		nops := 12 + g.Intn(29)
 		out[i] = fmt.Sprintf("conc:%d:%d:%d:%d %s", g.Next()%1000000, workers, nops, 2+g.Intn(2), c08GenEpilogue(g))
